@@ -36,12 +36,13 @@ type cliExp struct {
 var cliPrograms = map[string]string{
 	"find":     "find all 'ab'",
 	"findnone": "find all 'QQQ'",
-	"replace":  "replace all 'ab' with 'X' matchNumber",
+	"replace":  "replace all 'ab' with 'X%s<&' matchNumber",
 	"failing":  "find all 'ab",
-	"multi":    "find all 'ab' find all 'x' or 'z'",
+	"multi":    "find all 'ab' find all 'x' or 'z' or '%d' or '\\\\' or '\"'",
 }
 
-var cliFiles = map[string]string{"f1.txt": "ab ab\nxx ab", "f2.txt": "zz\nab", "g.dat": "ab"}
+// texts, replacements and one file name carry characters that matter to printing and serialising: % " \ < & tab, non-ASCII
+var cliFiles = map[string]string{"f1.txt": "ab ab\nxx ab 100%d \"q\" \\ \u00e9\t<&>", "f2.txt": "zz\nab", "g.dat": "ab", "p%c 50%.txt": "ab%s\n%"}
 
 func seedDir(dir string) {
 	for n, c := range cliFiles {
